@@ -10,13 +10,102 @@ CLAIM = {
             "slice; get/get_mut/set reach the data only behind row<height and col<width guards that exist in release builds; Shape values are "
             "built only by three audited constructors whose field templates are checked (stride inheritance, cols<->width / rows<->height pairing, "
             "transpose swapping both pairs); Shape::nth returns in-window positions (abstract interpretation); all data[shape.offset(..)] loops run "
-            "over 0..height x 0..width; the mutable iterator always advances. Relies on the stated lemma SHAPE-INV. Equality with a matrix model "
+            "over 0..height x 0..width; the mutable iterator always advances; U8 the two coordinate spaces are not interchanged: the backing slice is "
+            "accessed only at Shape::offset(..) terms, counts that position a view iterator (nth/skip) or feed Shape::nth are never derived from "
+            "Shape::offset/start/end/strides, and the provided methods (insert) position their iterator at exactly pos.row * width + pos.col of the "
+            "receiver (Shape::index formula checked). Relies on the stated lemma SHAPE-INV. Equality with a matrix model "
             "for every chain of views is not decided.",
     "technique": "MIR template matching via symbolic def-chasing, dominator guard analysis, literal-site (who-constructs) rule, abstract interpretation for the nth postcondition",
     "design_ref": "DESIGN.md §5 C07",
 }
 
 SHAPE_FIELDS = ["start", "end", "width", "height", "row_stride", "col_stride"]
+
+
+# ---- U8: two coordinate spaces ----------------------------------------------------------------------------
+# storage offsets (Shape::offset, shape.start/end, strides) index the backing slice; window indices
+# (row-major pos.row * width + pos.col, Shape::index) position a view iterator / feed Shape::nth.
+def _top_call(e):
+    """('Name', [args]) when the term is Name(args...) with balanced brackets spanning the whole term, else None"""
+    m = re.match(r"^([A-Za-z_][\w:]*)\(", e)
+    if not m or not e.endswith(")"):
+        return None
+    depth = 0
+    args, cur = [], ""
+    body = e[m.end() - 1:]
+    for i, ch in enumerate(body):
+        if ch in "([{":
+            depth += 1
+            if depth == 1:
+                continue
+        elif ch in ")]}":
+            depth -= 1
+            if depth == 0:
+                if i != len(body) - 1:
+                    return None
+                if cur.strip():
+                    args.append(cur.strip())
+                return m.group(1), args
+        if ch == "," and depth == 1:
+            args.append(cur.strip())
+            cur = ""
+        else:
+            cur += ch
+    return None
+
+
+STORAGE_FIELD = re.compile(r"(?:[Ss]hape(?:\([^()]*\))?|arg1)\.(start|end|row_stride|col_stride)$")
+
+
+def space_of(e):
+    """'storage' | 'window' | 'mixed' | 'other' for a canonical integer term"""
+    e = e.strip()
+    m = re.match(r"^\((.*) as [iu]\w+\)$", e)
+    if m:
+        return space_of(m.group(1))
+    if STORAGE_FIELD.search(e) and _top_call(e) is None:
+        return "storage"
+    tc = _top_call(e)
+    if tc is None:
+        return "other"
+    nm, args = tc
+    if nm == "Shape::offset":
+        return "storage"
+    if nm == "Shape::index":
+        return "window"
+    if nm in ("Add", "Sub", "Mul", "Div", "Rem", "cmp::min", "cmp::max") and len(args) == 2:
+        a, b = space_of(args[0]), space_of(args[1])
+        ks = {a, b} - {"other"}
+        if not ks:
+            return "window" if (nm == "Add" and _row_major(e) is not None) else "other"
+        if len(ks) > 1 or "mixed" in ks:
+            return "mixed"
+        return ks.pop()
+    return "other"
+
+
+def _row_major(e):
+    """(pos, width) when the term is pos.row * width + pos.col (either operand order), else None"""
+    tc = _top_call(e)
+    if tc is None or tc[0] != "Add" or len(tc[1]) != 2:
+        return None
+    for mul, col in (tc[1], tc[1][::-1]):
+        mc = re.match(r"^(.*)\.col$", col)
+        tm = _top_call(mul)
+        if not mc or tm is None or tm[0] != "Mul" or len(tm[1]) != 2:
+            continue
+        for row, w in (tm[1], tm[1][::-1]):
+            if row == mc.group(1) + ".row":
+                return mc.group(1), w
+    return None
+
+
+def window_index_of(e):
+    """(pos, shape-width term) for Shape::index(S, P) / row-major sums"""
+    tc = _top_call(e)
+    if tc and tc[0] == "Shape::index" and len(tc[1]) == 2:
+        return tc[1][1], tc[1][0] + ".width"
+    return _row_major(e)
 
 
 def switches(body):
@@ -41,7 +130,11 @@ def run(ctx):
         "(strides inherited by view, width/height differences of the resolved bounds paired cols<->width and rows<->height, transpose swaps "
         "width<->height together with row_stride<->col_stride); U4 Shape::nth returns row < height and col < width (abstract interpretation); U5 every "
         "loop that indexes data[shape.offset(Position::new(row, col))] iterates row in 0..height and col in 0..width; U6 the mutable iterator's index "
-        "is only ever increased by n+1 before an item is produced and starts at 0. With U3 (trusted lemma SHAPE-INV: in-window positions of such a "
+        "is only ever increased by n+1 before an item is produced and starts at 0; U8 window (row-major) indices and storage offsets are kept apart: "
+        "every access to the backing slice in surface.rs (7 indexings, get/get_mut, the raw ptr.add) uses a Shape::offset(..) term, every count handed to "
+        "nth/skip of a surface iterator or to Shape::nth (8 sites crate-wide) is free of Shape::offset/start/end/stride terms, SurfaceMut::insert skips "
+        "exactly pos.row * self.width() + pos.col (minus one for nth) cells of its own iter_mut(), Shape::index is pos.row * width + pos.col "
+        "(floor 21 = 2 anchors + 8 positioning counts + 11 data accesses, counted by hand). With U3 (trusted lemma SHAPE-INV: in-window positions of such a "
         "Shape map to distinct in-bounds offsets) these imply no write outside the window and no two &mut to one cell. NOT decided: equality with a "
         "matrix model for every chain of view/transpose (value-level).")
     ctx.trust("SHAPE-INV", "for a Shape built only by From<Size>/view/transpose (U3) distinct in-window positions map to distinct offsets inside the parent's data")
@@ -306,6 +399,116 @@ def run(ctx):
                 ctx.instance("U7-ELEMENTWISE", {"fn": b.path, "use": "index", "ok": True}, nontrivial=False)
     if n_uses == 0:
         ctx.anchor("U7-ELEMENTWISE", "data-uses")
+
+    # ---------------- U8 window indices vs storage offsets ----------------------------------------------------------
+    ctx.rule("U8-INDEX", "row-major window indices position view iterators / feed Shape::nth, storage offsets (Shape::offset) index the backing slice: never interchanged; "
+             "provided Surface/SurfaceMut methods position their iterator at pos.row * width + pos.col of the receiver", floor=21)
+    POS_CALL = r"Iterator>?::(nth|skip|advance_by|nth_back|step_by)$"
+    SURF_ITER_TY = r"surface::Surface(Pos)?(Mut)?(Pos)?Iter\b"
+    DATA_TERM = r"^(PtrMetadata\()?(slice::as_mut_ptr\(|slice::as_ptr\()?(Surface::data\(|SurfaceMut::data_mut\(|arg1\.data\b)"
+    SLICE_ACC = r"slice::<impl \[T\]>::(get|get_mut|get_unchecked|get_unchecked_mut)$|mut_ptr::<impl \*mut T>::add$|const_ptr::<impl \*const T>::add$"
+
+    def _upvars(b):
+        up = {}
+        if b.kind == "Closure":
+            parent = prog.body(b.j.get("closure_parent") or "") or prog.body(b.closure_root or "")
+            if parent is not None:
+                for i, si, s_ in parent.assigns():
+                    rv = s_["rv"]
+                    if rv["k"] == "agg" and rv["ak"] == "closure" and rv["def"] == b.path:
+                        for k, f in enumerate(rv["fields"]):
+                            up["arg1.%d" % k] = expr(parent, f)
+        return up
+
+    def _sub_up(e, up):
+        for k in sorted(up, key=len, reverse=True):
+            e = re.sub(re.escape(k) + r"\b", up[k].replace("\\", "\\\\"), e)
+        return e
+
+    # anchors: the two conversion routines and the width accessor
+    ib = prog.body("surface::Shape::index")
+    if ib is None:
+        ctx.anchor("U8-INDEX", "Shape::index")
+    else:
+        e = expr(ib, {"k": "copy", "place": {"l": 0, "p": []}})
+        wi = _row_major(e)
+        okf = wi == ("arg2", "arg1.width")
+        ctx.instance("U8-INDEX", {"fn": ib.path, "formula": e, "ok": okf})
+        if not okf:
+            ctx.violation("U8-INDEX", ib.path, "formula", "Shape::index is not pos.row * width + pos.col: %s" % e, sites=[ib.loc])
+    wbody = prog.body("surface::Surface::width")
+    okw = wbody is not None and expr(wbody, {"k": "copy", "place": {"l": 0, "p": []}}) == "Surface::shape(arg1).width"
+    ctx.instance("U8-INDEX", {"fn": "surface::Surface::width", "is_shape_width": okw})
+    if not okw:
+        ctx.anchor("U8-INDEX", "Surface::width")
+    WIDTHS = ("Surface::width(arg1)", "Surface::shape(arg1).width", "Surface::size(arg1).width", "Shape::size(Surface::shape(arg1)).width")
+    for b in prog.bodies:
+        in_surface = b.file.endswith("surface.rs")
+        up = None
+        for bb, t in b.calls():
+            site = "%s:%d" % (b.file, t["line"])
+            nm = callee_name(t) or ""
+            short = nm.split("::")[-1]
+            # A. positioning counts
+            is_pos = False
+            if call_matches(t, POS_CALL) and len(t["args"]) == 2:
+                rl = t["args"][0].get("place", {}).get("l")
+                rty = b.local_ty(rl) if rl is not None else ""
+                re0 = expr(b, t["args"][0])
+                is_pos = bool(re.search(SURF_ITER_TY, nm) or re.search(SURF_ITER_TY, rty) or re.search(r"(Surface::iter|SurfaceMut::iter_mut)\(", re0))
+            if call_matches(t, r"^surface::Shape::nth$") and len(t["args"]) == 2:
+                is_pos = True
+            if is_pos:
+                cnt = expr(b, t["args"][1])
+                sp = space_of(cnt)
+                ok = sp in ("window", "other")
+                why = "the count handed to %s is a %s value (%s): a storage offset differs from the row-major index for every view with start != 0 or strides != (width, 1)" % (short, sp, cnt[:160])
+                if ok and re.match(r"^surface::Surface(Mut)?::\w+$", b.path) and not re.match(r"^\d+$", cnt) and short != "step_by" and not call_matches(t, r"Shape::nth$"):
+                    # provided trait method positioning its own iterator at a caller-supplied position
+                    core = cnt
+                    if short in ("nth", "nth_back"):
+                        tc = _top_call(cnt)
+                        core = tc[1][0] if (tc and tc[0] == "Sub" and len(tc[1]) == 2 and tc[1][1] == "1") else None
+                    wi = window_index_of(core) if core else None
+                    ok = wi is not None and re.match(r"^arg[2-9]$", wi[0]) is not None and wi[1] in WIDTHS and re.search(r"(Surface::iter|SurfaceMut::iter_mut)\(arg1\)", expr(b, t["args"][0])) is not None
+                    why = "%s(%s) does not skip exactly the pos.row * self.width() + pos.col cells that precede `pos` in the row-major order of this view" % (short, cnt[:160])
+                ctx.instance("U8-INDEX", {"fn": b.path, "positioning": short, "count": cnt[:120], "space": sp, "ok": ok})
+                if not ok:
+                    ctx.violation("U8-INDEX", b.path, "%s-count" % short, why, sites=[site])
+                continue
+            if not in_surface:
+                continue
+            if up is None:
+                up = _upvars(b)
+            # B. element access to the backing data
+            if call_matches(t, SLICE_ACC) and len(t["args"]) == 2 and re.match(DATA_TERM, _sub_up(expr(b, t["args"][0]), up)):
+                ie = expr(b, t["args"][1])
+                ok = space_of(ie) == "storage" and ie.startswith("Shape::offset(")
+                ctx.instance("U8-INDEX", {"fn": b.path, "data_access": short, "index": ie[:120], "ok": ok})
+                if not ok:
+                    ctx.violation("U8-INDEX", b.path, "%s-index" % short, "the backing slice is accessed at %s, which is not a Shape::offset(..) of the view (a row-major index addresses the parent's cells only for an untransposed full-width view at the origin)" % ie[:160], sites=[site])
+                continue
+            # C. a storage offset handed to anything else
+            if call_matches(t, r"^surface::Shape::(offset|index)$"):
+                continue
+            for a in t["args"]:
+                e = expr(b, a)
+                if space_of(e) in ("storage", "mixed") and _top_call(e) is not None:
+                    ctx.violation("U8-INDEX", b.path, "offset-to-%s" % short, "a storage offset (%s) is handed to %s; offsets are only meaningful as indices of the backing slice" % (e[:160], nm), sites=[site])
+        if not in_surface:
+            continue
+        for bb, t in b.terms():
+            if t["k"] == "assert" and t["msg"]["kind"] == "BoundsCheck":
+                if up is None:
+                    up = _upvars(b)
+                le = _sub_up(expr(b, t["msg"]["len"]), up)
+                if not re.match(DATA_TERM, le):
+                    continue
+                ie = expr(b, t["msg"]["index"])
+                ok = space_of(ie) == "storage" and ie.startswith("Shape::offset(")
+                ctx.instance("U8-INDEX", {"fn": b.path, "data_access": "index", "index": ie[:120], "ok": ok})
+                if not ok:
+                    ctx.violation("U8-INDEX", b.path, "data-index", "the backing slice is indexed with %s, which is not a Shape::offset(..) of the view" % ie[:160], sites=["%s:%d" % (b.file, t["line"])])
 
     # ---------------- U6 iterator progress -------------------------------------------------------------------------
     ctx.rule("U6-PROGRESS", "SurfaceMutIter: index written only as index += n + 1 before producing an item; constructed with index 0", floor=2)
